@@ -334,15 +334,18 @@ static void case_prf_short(uint64_t sub)
     vf_progress("case=%llu prf-short inlen=%zu outlen=%zu", (unsigned long long)vf_case, inlen, outlen);
     res = ascon_prf_short(out, outlen, in, inlen, key);
     vf_out_int(res);
-    if (res != want)
-        vf_violation("C04", "prf-short:return", "\"inlen\":%zu,\"outlen\":%zu,\"res\":%d,\"want\":%d", inlen, outlen, res, want);
+    /* "reporting an error instead of output": success is 0, any non-zero result reports the error; which value, and what
+       the (exactly sized, guarded) output buffer holds after an error, is not constrained by C04 */
+    if ((res == 0) != (want == 0))
+        vf_violation("C04", "prf-short:return", "\"inlen\":%zu,\"outlen\":%zu,\"res\":%d,\"want\":\"%s\"", inlen, outlen, res, want ? "non-zero (error)" : "0");
     if (want == 0) {
         ref_prf_short(exp, in, inlen, key);
         vf_eq("C04", "prf-short:oneshot", "PrfShort (t=128, truncated)", out, exp, outlen, "\"inlen\":%zu,\"outlen\":%zu,\"key\":\"%s\",\"in\":\"%s\"", inlen, outlen, vf_h(key, 16), vf_h(in, inlen));
         vf_out(out, outlen);
     } else {
-        for (size_t i = 0; i < outlen; ++i)
-            if (out[i] != GPAT) { vf_violation("C04", "prf-short:output-on-error", "\"inlen\":%zu,\"outlen\":%zu,\"at\":%zu", inlen, outlen, i); break; }
+        size_t touched = 0;
+        for (size_t i = 0; i < outlen; ++i) touched += out[i] != GPAT;
+        if (touched) vf_count("prf_short_error_output_touched", 1);
     }
     vf_distinct("prf-short|in%zu|out%zu", inlen > 17 ? 18 : inlen, outlen > 17 ? 18 : outlen);
     in_free(in); in_free(key); gfree(out);
@@ -510,7 +513,7 @@ static void case_hkdf(uint64_t sub, int a)
              alg, keylen, saltlen, infolen, outlen, vf_h(key, keylen), vf_h(salt, saltlen), vf_h(info, infolen));
     res = a ? ascon_hkdfa(out, outlen, key, keylen, salt, saltlen, info, infolen) : ascon_hkdf(out, outlen, key, keylen, salt, saltlen, info, infolen);
     vf_out_int(res);
-    if (res != want) { char k[64]; snprintf(k, sizeof(k), "%s:oneshot-return", alg); vf_violation("C05", k, "\"res\":%d,\"want\":%d,%s", res, want, ctx); ok = 0; }
+    if ((res == 0) != (want == 0)) { char k[64]; snprintf(k, sizeof(k), "%s:oneshot-return", alg); vf_violation("C05", k, "\"res\":%d,\"want\":\"%s\",%s", res, want ? "non-zero (error)" : "0", ctx); ok = 0; }
     if (want == 0) { ok &= report("C05", alg, "oneshot", 1, out, exp, outlen, ctx); vf_out(out, outlen); }
     /* incremental: expand in random pieces, possibly beyond the 255-block limit */
     {
@@ -528,16 +531,28 @@ static void case_hkdf(uint64_t sub, int a)
                 memset(big + done, GPAT, n);                                                              \
                 r2 = EXPAND(st, info, infolen, big + done, n);                                            \
                 w2 = (n > 0 && done + n > 8160) ? -1 : 0;                                                            \
-                vf_out_int(r2);                                                                           \
-                if (r2 != w2) { snprintf(k, sizeof(k), "%s:expand-return", alg); vf_violation("C05", k, "\"done\":%zu,\"request\":%zu,\"res\":%d,\"want\":%d,%s", done, n, r2, w2, ctx); } \
+                vf_out_int(r2 != 0);                                                                      \
+                /* a request is refused (non-zero result) iff it would pass 255 blocks; an empty request after a refusal   \
+                   is not constrained */                                                                  \
+                if ((r2 == 0) != (w2 == 0) && !(n == 0 && done > 8160)) { snprintf(k, sizeof(k), "%s:expand-return", alg); vf_violation("C05", k, "\"done\":%zu,\"request\":%zu,\"res\":%d,\"want\":\"%s\",%s", done, n, r2, w2 ? "non-zero (error)" : "0", ctx); } \
                 {   size_t good = done >= 8160 ? 0 : (done + n > 8160 ? 8160 - done : n);                  \
                     snprintf(k, sizeof(k), "%s:expand-bytes", alg);                                       \
-                    if (ok) vf_eq("C07", k, "expand output (servable prefix)", big + done, exp + (done < 8160 ? done : 0), good, "\"done\":%zu,\"request\":%zu,%s", done, n, ctx); \
-                    vf_eq("C05", k, "expand output (servable prefix)", big + done, exp + (done < 8160 ? done : 0), good, "\"done\":%zu,\"request\":%zu,%s", done, n, ctx); \
+                    if (good == n) {                                                                      \
+                        /* fully servable: the one-shot call of length done+n exists -> C07 as well as C05 */ \
+                        if (ok) vf_eq("C07", k, "expand output", big + done, exp + done, n, "\"done\":%zu,\"request\":%zu,%s", done, n, ctx); \
+                        vf_eq("C05", k, "expand output", big + done, exp + done, n, "\"done\":%zu,\"request\":%zu,%s", done, n, ctx); \
+                    } else {                                                                              \
+                        /* refused request: the part that cannot be served must be zero; the servable prefix may be served \
+                           (then it must be right) or zero-filled with the rest */                        \
+                        size_t nz = 0;                                                                    \
+                        for (size_t z = 0; z < good; ++z) nz += big[done + z] != 0;                       \
+                        if (nz) vf_eq("C05", k, "expand output (served prefix of a refused request)", big + done, exp + done, good, "\"done\":%zu,\"request\":%zu,%s", done, n, ctx); \
+                        else if (good) vf_count("hkdf_refused_prefix_zero_filled", 1);                    \
+                    }                                                                                     \
                     for (size_t z = good; z < n; ++z)                                                     \
                         if (big[done + z] != 0) { snprintf(k, sizeof(k), "%s:expand-no-zero-fill", alg); vf_violation("C05", k, "\"done\":%zu,\"request\":%zu,\"at\":%zu,\"byte\":%u,%s", done, n, z, big[done + z], ctx); break; } \
                     if (good < n) vf_count("hkdf_refusals", 1); }                                         \
-                vf_out(big + done, n);                                                                    \
+                if (done + n <= 8160) vf_out(big + done, n);                                              \
                 done += n;                                                                                \
                 if (done >= total && rng_below(R, 2)) break;                                              \
             }                                                                                             \
